@@ -97,9 +97,9 @@ type c01Case struct {
 	shellCfg
 	Comp    bool        `json:"comp"`
 	Multi   bool        `json:"multi"`
-	Editor  string      `json:"editor"`          // missing | ok | fail
-	Bound   []string    `json:"bound,omitempty"` // commands without a default binding, bound to C-x C-z a, b, ...
-	Hilite  bool        `json:"hilite,omitempty"` // the application sets a SyntaxHighlighter
+	Editor  string      `json:"editor"`            // missing | ok | fail
+	Bound   []string    `json:"bound,omitempty"`   // commands without a default binding, bound to C-x C-z a, b, ...
+	Hilite  bool        `json:"hilite,omitempty"`  // the application sets a SyntaxHighlighter
 	Prompts []string    `json:"prompts,omitempty"` // further prompts the application sets: right, tooltip, secondary, transient
 	Srcs    int         `json:"srcs,omitempty"`    // further history sources added with History.Add
 	Del     string      `json:"del,omitempty"`     // what the application removes before a second call: first, last, middle, all
